@@ -111,6 +111,10 @@ var vRecursionCores = []string{
 	`(f (- n 1) (or (f (- n 2) 0) (t n)))`,
 	`(or (and (f (- n 1) 0) 7) (f (- n 1) (+ acc (t n))))`,
 	`(t (f (- n 1) (+ acc n)))`,
+	`(set g (f (- n 1) (+ acc (t n))))`,
+	`(def q (f (- n 1) (+ acc (t n))))`,
+	`(begin (set g (+ g 1)) (set g (+ g (f (- n 1) acc))))`,
+	`(let [w (t n)] (set g (f (- n 1) (+ acc w))))`,
 }
 
 func vProgRecursion(env *Zlisp) []Sexp {
@@ -125,7 +129,7 @@ func vProgRecursion(env *Zlisp) []Sexp {
 	body := vReplace(w1, "E", vReplace(w2, "E", vReplace(core, "REC", rec)))
 	n := vInt64("n")
 	vAssume(n >= 0 && n <= 3)
-	return vT(env, `(defn f [n acc] `+body+`) (list (f 9001 9002) (t 77))`, &SexpInt{Val: n}, vSmallInt("acc"))
+	return vT(env, `(def g 5) (defn f [n acc] `+body+`) (list (f 9001 9002) (t 77) g)`, &SexpInt{Val: n}, vSmallInt("acc"))
 }
 
 func vh_C09_positions() {
